@@ -224,6 +224,138 @@ def _cook_check(repo, rep):
               where=L.where(init))
 
 
+def _conjuncts(e):
+    if isinstance(e, ast.BoolOp) and isinstance(e.op, ast.And):
+        out = []
+        for v in e.values:
+            out += _conjuncts(v)
+        return out
+    return [e]
+
+
+def _retire_filter(repo, rep, f):
+    site = f.qualname
+    wh = L.where(f)
+    # the publishing prefix: setattr(self, P + name, function)
+    pub = [n for n in ast.walk(f.node) if isinstance(n, ast.Call)
+           and src(n.func) == "setattr" and len(n.args) == 3]
+    P = None
+    for c in pub:
+        k = L.inline_locals(f.node, c.args[1])
+        if isinstance(k, ast.BinOp) and isinstance(k.op, ast.Add) and \
+                isinstance(k.left, ast.Constant) and \
+                isinstance(k.left.value, str):
+            P = k.left.value
+        elif isinstance(k, ast.BinOp) and isinstance(k.op, ast.Mod) and \
+                isinstance(k.left, ast.Constant) and \
+                isinstance(k.left.value, str) and \
+                k.left.value.endswith("%s"):
+            P = k.left.value[:-2]
+    # the name every compiled entry point starts with: the attribute
+    # render() calls, less the publishing prefix
+    rn = repo.func(BT + "render")
+    entry = {n.func.attr for n in ast.walk(rn.node)
+             if isinstance(n, ast.Call) and isinstance(n.func, ast.Attribute)
+             and src(n.func.value) == "self"
+             and n.func.attr.startswith("_render")}
+    if P is None or len(entry) != 1:
+        raise AnalysisError("cook(): publishing prefix / entry point not "
+                            "understood (%r, %r)" % (P, sorted(entry)))
+    want_prefix = sorted(entry)[0]
+    rets = [n for n in ast.walk(f.node) if (isinstance(n, ast.Call) and (
+        src(n.func) == "delattr" or (src(n.func).endswith(".pop") and
+                                     "__dict__" in src(n.func))))]
+    ok = bool(rets)
+    detail = []
+    for r in rets:
+        key = r.args[1] if src(r.func) == "delattr" and len(r.args) > 1 \
+            else (r.args[0] if r.args else None)
+        loop = getattr(r, "_parent", None)
+        conds = []
+        while loop is not None and not isinstance(loop, ast.For):
+            if isinstance(loop, ast.If):
+                conds += _conjuncts(loop.test)
+            loop = getattr(loop, "_parent", None)
+        if loop is None or key is None:
+            ok = False
+            detail.append("retire call outside a loop")
+            continue
+        var = src(loop.target)
+        # what the loop runs over: a comprehension with filters, possibly
+        # behind list()/tuple() and a local
+        it = loop.iter
+        for _ in range(3):
+            # list(x) / tuple(x) / a local bound once: look through
+            if isinstance(it, ast.Call) and src(it.func) in (
+                    "list", "tuple", "sorted") and len(it.args) == 1:
+                it = it.args[0]
+            elif isinstance(it, ast.Name):
+                ds = [d.value for d in ast.walk(f.node)
+                      if isinstance(d, ast.Assign) and len(d.targets) == 1
+                      and src(d.targets[0]) == it.id]
+                if len(ds) != 1:
+                    break
+                it = ds[0]
+        for x in ast.walk(it):
+            if isinstance(x, (ast.ListComp, ast.GeneratorExp, ast.SetComp)):
+                g = x.generators[0]
+                # conditions are written on the comprehension's variable
+                cv = src(g.target)
+                if src(x.elt) != cv:
+                    ok = False
+                    detail.append("the loop runs over %s, not over the "
+                                  "attribute names" % src(x.elt))
+                for c_ in g.ifs:
+                    for cj in _conjuncts(c_):
+                        conds.append(ast.parse(src(cj).replace(
+                            cv, var) if cv != var else src(cj),
+                            mode="eval").body)
+        if src(key) != var:
+            ok = False
+            detail.append("removes %s, tests %s" % (src(key), var))
+        pref = [c_ for c_ in conds if isinstance(c_, ast.Call)
+                and isinstance(c_.func, ast.Attribute)
+                and c_.func.attr == "startswith"
+                and src(c_.func.value) == var and c_.args
+                and isinstance(c_.args[0], ast.Constant)]
+        if len(pref) != 1 or pref[0].args[0].value != want_prefix:
+            ok = False
+            detail.append("prefix test %s, entry points are %r..." % (
+                [src(c_) for c_ in pref], want_prefix))
+        memb = [c_ for c_ in conds if isinstance(c_, ast.Compare)
+                and len(c_.ops) == 1 and isinstance(c_.ops[0], ast.NotIn)
+                and src(c_.comparators[0]) == "functions"]
+        good_m = False
+        for c_ in memb:
+            l_ = c_.left
+            if isinstance(l_, ast.Subscript) and isinstance(
+                    l_.slice, ast.Slice) and src(l_.value) == var and \
+                    l_.slice.upper is None and isinstance(
+                        l_.slice.lower, ast.Constant) and \
+                    l_.slice.lower.value == len(P):
+                good_m = True
+            elif isinstance(l_, ast.Call) and isinstance(
+                    l_.func, ast.Attribute) and \
+                    l_.func.attr == "removeprefix" and \
+                    src(l_.func.value) == var and l_.args and isinstance(
+                        l_.args[0], ast.Constant) and \
+                    l_.args[0].value == P:
+                good_m = True
+        if not good_m:
+            ok = False
+            detail.append("membership test %s (published as %r + name)" % (
+                [src(c_) for c_ in memb], P))
+        extra = [c_ for c_ in conds if c_ not in pref and c_ not in memb]
+        if extra:
+            ok = False
+            detail.append("further condition %s" % [src(c_) for c_ in extra])
+    rep.check(ok, "R16.2", site, "exactly the published entry points (%r + "
+              "name, names starting with %r) that the new program does not "
+              "define are removed, under the key that was tested" % (
+                  P, want_prefix[len(P):]),
+              construct="retire-filter", where=wh, detail="; ".join(detail))
+
+
 def _retire(repo, rep):
     f = repo.func(BT + "cook")
     site = f.qualname
@@ -315,16 +447,10 @@ def _retire(repo, rep):
                   "retired on every compilation, not depending on template "
                   "state", construct="retire-unconditional", where=wh,
                   detail="retire step is guarded by %s" % guard)
-        # the filter: _render prefix and not among the new functions
-        ok = False
-        for n in ast.walk(f.node):
-            if isinstance(n, (ast.ListComp, ast.For, ast.GeneratorExp)):
-                t = src(n)
-                if "startswith('_render')" in t and "not in functions" in t:
-                    ok = True
-        rep.check(ok, "R16.2", site, "exactly the _render* attributes absent "
-                  "from the new program are removed",
-                  construct="retire-filter", where=wh)
+        # the filter: exactly the published entry points ('_' + name of a
+        # compiled function, all of which start with 'render') that the new
+        # program does not define -- and what is removed is the key tested
+        _retire_filter(repo, rep, f)
     t = L.text(f.node)
     rep.check("init = program[PROGRAM_NAME]" in t and
               "functions = init(*builtins)" in t, "R16.2", site,
